@@ -39,7 +39,8 @@ def build_node(objs, ncb):
             members = []
             for m in o["members"]:
                 v = ODVariable(f"{o['name']}_{m['sub']}", o["idx"], m["sub"])
-                parent.add_member(v)
+                if not m.get("virtual"):        # (served on demand from member 1: not in the dictionary)
+                    parent.add_member(v)
                 members.append((m, v))
             od.add_object(parent)
         for m, v in members:
